@@ -1,10 +1,122 @@
-"""Contracts of server_websocket.WebSocketServer (DESIGN A.4)."""
+"""Contracts of server_websocket.WebSocketServer (DESIGN A.4): one event handler per
+command; the per-command oracles are taken from the property texts."""
 import z3
 from pvc.zs import *  # noqa
 from pvc.values import *  # noqa
-from pvc.contract import contract
+from pvc.contract import contract, Ctx
+from pvc.state import is_insert, is_update, is_delete, tbl_eq, comp_eq
 from pvc import heap as H
 from . import invariants as I
+from . import heapinv as HI
+from . import appnamespace as AN
+from .appnamespace import hp, registry_wf, MB, MS, MSG, NP, NS, UNP, UMB, UCV
+from .server import apps_wf, APPS, APP_FIELDS
+from .mailbox import is_message_frame, fanout, LS
+
+FV = H.FV
+WS = "WebSocketServer."
+CONN_COMPS = ["heap." + WS + f for f in (
+    "_app", "_side", "_side.isnone", "_did_allocate", "_listening", "_did_claim", "_nameplate_id",
+    "_nameplate_id.isnone", "_did_release", "_did_open", "_mailbox", "_mailbox_id", "_mailbox_id.isnone", "_did_close")]
+
+
+def cf(S, f):
+    return S.heap[WS + f]
+
+
+# ---------------------------------------------------------------- frames and outboxes
+def is_frame(fr, ftype, fields):
+    """fr has exactly: type, server_tx (a number) and the given key -> FV pairs"""
+    keys = ["type", "server_tx"] + sorted(fields)
+    cs = [fr[S("type")] == FV.fstr(S(ftype)), FV.is_fnum(fr[S("server_tx")])]
+    for k in sorted(fields):
+        cs.append(fr[S(k)] == fields[k])
+    cs.append(FA([Str], lambda k: Implies(And(*[k != S(x) for x in keys]), fr[k] == FV.absent)))
+    return And(*cs)
+
+
+def out_gets(S0, S1, cn, preds):
+    """out[cn] grows by exactly len(preds) frames, the j-th satisfying preds[j]; earlier frames stay"""
+    n = S0.out_len[cn]
+    k = len(preds)
+    if k == 0:
+        return And(S1.out_len[cn] == n, S1.out_buf[cn] == S0.out_buf[cn])
+
+    frs = [S1.out_buf[cn][n + j] for j in range(k)]
+    buf = S0.out_buf[cn]
+    for j, fr in enumerate(frs):
+        buf = Store(buf, n + j, fr)
+    # (no existential: the new frames are named by their position; the array equation says nothing else moved)
+    return And(S1.out_len[cn] == n + k, S1.out_buf[cn] == buf, *[p(fr) for p, fr in zip(preds, frs)])
+
+
+def others_silent(S0, S1, me):
+    return FA([INT], lambda cn: Implies(cn != me, And(S1.out_len[cn] == S0.out_len[cn],
+                                                      S1.out_buf[cn] == S0.out_buf[cn])),
+              pats=lambda cn: [S1.out_len[cn]])
+
+
+def only_me_gets(S0, S1, me, preds):
+    return And(out_gets(S0, S1, me, preds), others_silent(S0, S1, me))
+
+
+def unchanged(c, comps):
+    return conj([comp_eq(k, c.pre.get_comp(k), c.post.get_comp(k)) for k in comps])
+
+
+def opt_fv(isnone, term, wrap):
+    return If(isnone, FV.fnone, wrap(term))
+
+
+# ---------------------------------------------------------------- what every handler may assume / must re-establish
+def conn_ok(S, me):
+    """per-connection invariant of the acting connection between commands"""
+    app = cf(S, "_app")[me]
+    M = cf(S, "_mailbox")[me]
+    return And(
+        cf(S, "alive")[me],
+        Implies(app != 0, And(S.alloc[app], Not(cf(S, "_side.isnone")[me]),
+                              hp(S, APPS)[H.SERVER][hp(S, "AppNamespace._app_id")[app]] == app)),   # H3
+        Implies(app == 0, M == 0),
+        (M != 0) == cf(S, "_listening")[me],
+        Implies(M != 0, And(Not(cf(S, "_mailbox_id.isnone")[me]),
+                            cf(S, "_mailbox_id")[me] == hp(S, "Mailbox._mailbox_id")[M])))
+
+
+def event_pre(c):
+    S = c.pre
+    for n in I.DB_INV:
+        yield n, I.NAMED[n](S)
+    yield "clean", I.Clean(S)
+    yield "apps_wf", apps_wf(S)
+    yield "GH4", HI.GH4(S)
+    yield "GH5", HI.GH5(S)
+    yield "conn_ok", conn_ok(S, c.self_ref)
+
+
+def event_post(c, tags=("C17", "C10", "C02")):
+    S = c.post
+    for n in I.DB_INV:
+        yield "preserves." + n, I.NAMED[n](S), list(tags)
+    yield "exit.clean", I.Clean(S), ["C09", "C17"]
+    yield "preserves.apps_wf", apps_wf(S), list(tags)
+    yield "preserves.GH4", HI.GH4(S), list(tags)
+    yield "preserves.GH5", HI.GH5(S), list(tags)
+    yield "preserves.conn_ok", conn_ok(S, c.self_ref), list(tags)
+
+
+ALL_DB = [NP, NS, MB, MS, MSG, UNP, UMB, UCV, "us.current", "in_tx.ch", "in_tx.us", "np_next"]
+ALL_HEAP = ["heap." + APPS, "alloc"] + APP_FIELDS + AN.MAILBOX_FIELDS + CONN_COMPS
+
+
+def misuse(con, name, explain, when, comps, tags=("C17",)):
+    """an out-of-order / malformed command: raises Error(explain) exactly when `when`,
+    having changed nothing (C17)"""
+    @con.raises("Error", name, tags=list(tags), fields={"_explain": explain})
+    def _(c):
+        yield "when", when(c)
+        yield "nothing_changed", unchanged(c, comps)
+
 
 # ---------------------------------------------------------------- send
 c = contract("server_websocket.WebSocketServer.send", cls="WebSocketServer",
@@ -26,4 +138,559 @@ def _(c):
     yield "adds_type_and_tx", And(
         S1.out_len == Store(S0.out_len, me, n + 1),
         EX([REAL], lambda tx: S1.out_buf == Store(S0.out_buf, me, Store(
-            S0.out_buf[me], n, Store(Store(kw, S("type"), H.FV.fstr(c.a.t("mtype"))), S("server_tx"), H.FV.fnum(tx)))))), ["C17"]
+            S0.out_buf[me], n, Store(Store(kw, S("type"), FV.fstr(c.a.t("mtype"))), S("server_tx"), FV.fnum(tx)))))), ["C17"]
+
+
+# ---------------------------------------------------------------- onOpen / onClose
+c = contract("server_websocket.WebSocketServer.onOpen", cls="WebSocketServer", params={}, modifies=["out"],
+             tags=["C17", "C09"])
+
+
+@c.requires
+def _(c):
+    yield "clean", I.Clean(c.pre)
+
+
+@c.ensures
+def _(c):
+    W = hp(c.pre, "Server._welcome")[H.SERVER]
+    yield "welcome_first", only_me_gets(c.pre, c.post, c.self_ref, [
+        lambda fr: is_frame(fr, "welcome", {"welcome": FV.fjson(W)})]), ["C17"]
+
+
+c = contract("server_websocket.WebSocketServer.onClose", cls="WebSocketServer",
+             params={"wasClean": "bool", "code": "json", "reason": "json"},
+             modifies=["heap.Mailbox._listeners", "heap." + WS + "alive"], tags=["C02", "C17", "C12"])
+
+
+@c.requires
+def _(c):
+    yield "GH4", HI.GH4(c.pre)
+    yield "GH5", HI.GH5(c.pre)
+    yield "conn_ok", conn_ok(c.pre, c.self_ref)
+
+
+@c.ensures
+def _(c):
+    S0, S1 = c.pre, c.post
+    me = c.self_ref
+    # Sub loses this connection and nothing else: every listener set minus {me}
+    ls0, ls1 = LS(S0), LS(S1)
+    yield "Sub_loses_self", FA([INT, INT], lambda M, h: Implies(M != 0, ls1[M][h] == And(ls0[M][h], h != me)),
+                               pats=lambda M, h: [ls1[M][h]]), ["C02"]
+    yield "preserves.GH5", HI.GH5(S1), ["C02", "C12"]
+    yield "preserves.GH4", HI.GH4(S1), ["C02", "C12"]
+
+
+def _onclose_ghost(ex):
+    # ghost (A10): after onClose no callback runs on this object
+    a = ex.st.heap[WS + "alive"]
+    ex.st.heap[WS + "alive"] = Store(a, ex.self_ref, False)
+
+
+c.ghost_exit = _onclose_ghost
+
+
+# ---------------------------------------------------------------- ping
+PING_MOD = ["out"]
+c = contract("server_websocket.WebSocketServer.handle_ping", cls="WebSocketServer", params={"msg": "msg"},
+             modifies=PING_MOD, tags=["C17", "C09"])
+
+
+@c.requires
+def _(c):
+    yield "clean", I.Clean(c.pre)
+
+
+@c.ensures
+def _(c):
+    msg = c.a.msg
+    yield "pong_same_value", only_me_gets(c.pre, c.post, c.self_ref, [
+        lambda fr: is_frame(fr, "pong", {"pong": FV.fjson(msg.val("ping").t)})]), ["C17"]
+
+
+misuse(c, "no_ping", "ping requires 'ping'", lambda c: Not(c.a.msg.has("ping")), PING_MOD)
+
+
+# ---------------------------------------------------------------- bind
+BIND_MOD = ["heap." + WS + "_app", "heap." + WS + "_side", "heap." + WS + "_side.isnone",
+            "heap." + APPS, "alloc"] + APP_FIELDS + [UCV, "in_tx.us"]
+c = contract("server_websocket.WebSocketServer.handle_bind", cls="WebSocketServer",
+             params={"msg": "msg", "server_rx": "real"}, modifies=BIND_MOD,
+             tags=["C17", "C09", "C16", "C18", "C06", "C02"])
+c.requires(event_pre)
+
+
+def bound(S, me):
+    return Or(cf(S, "_app")[me] != 0, And(Not(cf(S, "_side.isnone")[me]), cf(S, "_side")[me] != EMPTY))
+
+
+misuse(c, "already_bound", "already bound", lambda c: bound(c.pre, c.self_ref), BIND_MOD)
+misuse(c, "no_appid", "bind requires 'appid'", lambda c: And(Not(bound(c.pre, c.self_ref)), Not(c.a.msg.has("appid"))), BIND_MOD)
+misuse(c, "no_side", "bind requires 'side'", lambda c: And(Not(bound(c.pre, c.self_ref)), c.a.msg.has("appid"),
+                                                           Not(c.a.msg.has("side"))), BIND_MOD)
+
+
+@c.ensures
+def _(c):
+    S0, S1 = c.pre, c.post
+    me = c.self_ref
+    msg = c.a.msg
+    appid, side = msg.val("appid").t, msg.val("side").t
+    app = cf(S1, "_app")[me]
+    # the connection is bound to THE namespace registered for its app id (one per app) and to its side
+    yield "bound_to_registered", And(app != 0, hp(S1, APPS)[H.SERVER][appid] == app,
+                                     hp(S1, "AppNamespace._app_id")[app] == appid,
+                                     Not(cf(S1, "_side.isnone")[me]), cf(S1, "_side")[me] == side), ["C02", "C06", "C17"]
+    old = hp(S0, APPS)[H.SERVER][appid]
+    yield "one_namespace_per_app", Implies(old != 0, app == old), ["C02", "C06", "C11"]
+    yield "other_connections_untouched", And(
+        FA([INT], lambda cn: Implies(cn != me, And(cf(S1, "_app")[cn] == cf(S0, "_app")[cn],
+                                                   cf(S1, "_side")[cn] == cf(S0, "_side")[cn],
+                                                   cf(S1, "_side.isnone")[cn] == cf(S0, "_side.isnone")[cn])))), ["C06"]
+    # C16: the connect time recorded for the client version is blurred
+    from . import specs
+    from pvc.state import is_insert_where
+    cvh = msg.has("client_version")
+    cv = msg.val("client_version").items
+    yield "client_version_record", If(
+        H.CFG_USAGE,
+        is_insert_where(S0.t(UCV), S1.t(UCV), lambda row: And(
+            row.app_id == appid, row.side == side, specs.blur_rel(row.connect_time, c.a.t("server_rx")),
+            row.implementation == If(cvh, cv[0].t, JNULL), row.version == If(cvh, cv[1].t, JNULL))),
+        tbl_eq(S0.t(UCV), S1.t(UCV))), ["C16", "C18"]
+    yield from event_post(c)
+
+
+# ---------------------------------------------------------------- list
+c = contract("server_websocket.WebSocketServer.handle_list", cls="WebSocketServer", params={}, modifies=["out"],
+             tags=["C17", "C18", "C07", "C09", "C06"])
+c.requires(event_pre)
+
+
+@c.requires
+def _(c):
+    yield "is_bound", cf(c.pre, "_app")[c.self_ref] != 0
+
+
+@c.ensures
+def _(c):
+    S0 = c.pre
+    me = c.self_ref
+    app = cf(S0, "_app")[me]
+    a = hp(S0, "AppNamespace._app_id")[app]
+    Uset = AN.U(S0, a)
+
+    def answer(fr):
+        v = fr[S("nameplates")]
+        n, ids = FV.n(v), FV.ids(v)
+        # exactly the live nameplates of the caller's app, each once, when listing is allowed; else empty
+        return And(is_frame(fr, "nameplates", {"nameplates": v}), FV.is_fids(v), n >= 0,
+                   FA([INT], lambda i: Implies(And(0 <= i, i < n), And(H.CFG_ALLOW_LIST, Uset(ids[i])))),
+                   FA([INT, INT], lambda i, j: Implies(And(0 <= i, i < j, j < n), ids[i] != ids[j])),
+                   FA([Str], lambda y: Implies(And(H.CFG_ALLOW_LIST, Uset(y)),
+                                               EX([INT], lambda i: And(0 <= i, i < n, ids[i] == y)))))
+    yield "answer", only_me_gets(c.pre, c.post, me, [answer]), ["C18", "C07", "C06"]
+
+
+# ---------------------------------------------------------------- allocate
+ALLOC_MOD = AN.CLAIM_MOD + ["heap." + WS + "_did_allocate", "out"]
+c = contract("server_websocket.WebSocketServer.handle_allocate", cls="WebSocketServer",
+             params={"server_rx": "real"}, modifies=ALLOC_MOD, tags=["C04", "C17", "C09", "C10"])
+c.requires(event_pre)
+
+
+@c.requires
+def _(c):
+    yield "is_bound", cf(c.pre, "_app")[c.self_ref] != 0
+
+
+misuse(c, "greedy", "you already allocated one, don't be greedy", lambda c: cf(c.pre, "_did_allocate")[c.self_ref], ALLOC_MOD)
+
+
+def sub_ctx(c, app, args, result=None):
+    return Ctx(c.pre, c.post, args, app, "AppNamespace", result=result)
+
+
+@c.ensures
+def _(c):
+    S0, S1 = c.pre, c.post
+    me = c.self_ref
+    app = cf(S0, "_app")[me]
+    side = VZ(cf(S0, "_side")[me], "str")
+    a = hp(S0, "AppNamespace._app_id")[app]
+
+    def allocated(fr):
+        v = fr[S("nameplate")]
+        name = FV.s(v)
+        k = undec(name)
+        n1 = S0.np_next
+        c2 = sub_ctx(c, app, {})
+        some_short = EX([INT], lambda j: AN.short_free(c2, j))
+        return And(is_frame(fr, "allocated", {"nameplate": v}), FV.is_fstr(v),
+                   Not(AN.U(S0, a)(name)), name == dec(k), k >= 1,
+                   If(some_short, And(1 <= k, k <= 999, FA([INT], lambda j: Implies(AN.short_free(c2, j),
+                                                                                    ndigits(k) <= ndigits(j)))),
+                      And(1000 <= k, k <= 999999)),
+                   # ... and the allocating side already holds it in the committed state the frame is sent from
+                   S1.t(NP).live[n1], S1.t(NP).cols["app_id"][n1] == a, S1.t(NP).cols["name"][n1] == name,
+                   S1.t(NS).exists(lambda r: And(r.nameplates_id == n1, r.side == side.t, r.claimed)))
+    yield "answer_after_commit", only_me_gets(S0, S1, me, [allocated]), ["C04", "C09"]
+    yield "once", cf(S1, "_did_allocate")[me], ["C17"]
+    yield from event_post(c)
+
+
+# ---------------------------------------------------------------- claim
+CLAIM_H_MOD = AN.CLAIM_MOD + ["heap." + WS + "_did_claim", "heap." + WS + "_nameplate_id",
+                              "heap." + WS + "_nameplate_id.isnone", "out"]
+c = contract("server_websocket.WebSocketServer.handle_claim", cls="WebSocketServer",
+             params={"msg": "msg", "server_rx": "real"}, modifies=CLAIM_H_MOD,
+             tags=["C03", "C05", "C07", "C09", "C10", "C14", "C17"])
+c.requires(event_pre)
+
+
+@c.requires
+def _(c):
+    yield "is_bound", cf(c.pre, "_app")[c.self_ref] != 0
+
+
+misuse(c, "no_nameplate", "claim requires 'nameplate'", lambda c: Not(c.a.msg.has("nameplate")), CLAIM_H_MOD)
+misuse(c, "second_claim", "only one claim per connection",
+       lambda c: And(c.a.msg.has("nameplate"), cf(c.pre, "_did_claim")[c.self_ref]), CLAIM_H_MOD)
+
+
+def claim_args(c):
+    me = c.self_ref
+    return {"name": c.a.msg.val("nameplate"), "side": VZ(cf(c.pre, "_side")[me], "str"), "when": c.a.server_rx}
+
+
+def claim_fields(c):
+    S1 = c.post
+    me = c.self_ref
+    return And(cf(S1, "_did_claim")[me], Not(cf(S1, "_nameplate_id.isnone")[me]),
+               cf(S1, "_nameplate_id")[me] == c.a.msg.val("nameplate").t)
+
+
+@c.ensures
+def _(c):
+    S0, S1 = c.pre, c.post
+    me = c.self_ref
+    app = cf(S0, "_app")[me]
+    a = hp(S0, "AppNamespace._app_id")[app]
+    name = c.a.msg.val("nameplate").t
+
+    def claimed(fr):
+        v = fr[S("mailbox")]
+        mid = FV.s(v)
+        sub = sub_ctx(c, app, claim_args(c))
+        return And(is_frame(fr, "claimed", {"mailbox": v}), FV.is_fstr(v),
+                   # C03: the id told is the mailbox of THE live nameplate (app, name) in the committed state
+                   S1.t(NP).exists(lambda r: And(r.app_id == a, r.name == name, r.mailbox_id == mid)),
+                   *[t for _, t, _ in AN.claim_post(sub, mid)])
+    yield "claimed_frame_carries_result", only_me_gets(S0, S1, me, [claimed]), ["C03", "C07", "C09", "C14"]
+    yield "fields", claim_fields(c), ["C17"]
+    yield from event_post(c)
+
+
+@c.raises("Error", "crowded", tags=["C05"], fields={"_explain": "crowded"})
+def _(c):
+    me = c.self_ref
+    app = cf(c.pre, "_app")[me]
+    sub = sub_ctx(c, app, claim_args(c))
+    yield "when", And(c.a.msg.has("nameplate"), Not(cf(c.pre, "_did_claim")[me]), AN.claim_crowded(sub))
+    # the refused side learns nothing: no frame, no subscription (listener sets are not even in the frame)
+    yield "learns_nothing", unchanged(c, ["out"])
+    for n, t, tags in AN.claim_post(sub, None):
+        yield n, t
+    yield "fields", claim_fields(c)
+    for it in event_post(c):
+        yield it[0], it[1]
+
+
+def reclaimed_when(c):
+    S0 = c.pre
+    me = c.self_ref
+    app = cf(S0, "_app")[me]
+    a = hp(S0, "AppNamespace._app_id")[app]
+    N = AN.N_pred(S0, a, c.a.msg.val("nameplate").t)
+    side = cf(S0, "_side")[me]
+    return EX([INT], lambda n: And(N(n), S0.t(NS).exists(lambda r: And(r.nameplates_id == n, r.side == side,
+                                                                       Not(r.claimed)))))
+
+
+@c.raises("Error", "reclaimed", tags=["C07"], fields={"_explain": "reclaimed"})
+def _(c):
+    me = c.self_ref
+    yield "when", And(c.a.msg.has("nameplate"), Not(cf(c.pre, "_did_claim")[me]), reclaimed_when(c))
+    yield "no_change", unchanged(c, AN.CLAIM_MOD + ["out"])
+    yield "fields", claim_fields(c)
+    for it in event_post(c):
+        yield it[0], it[1]
+
+
+# ---------------------------------------------------------------- release
+REL_H_MOD = AN.REL_MOD + ["heap." + WS + "_did_release", "out"]
+c = contract("server_websocket.WebSocketServer.handle_release", cls="WebSocketServer",
+             params={"msg": "msg", "server_rx": "real"}, modifies=REL_H_MOD,
+             tags=["C07", "C09", "C10", "C14", "C15", "C16", "C17"])
+c.requires(event_pre)
+
+
+@c.requires
+def _(c):
+    yield "is_bound", cf(c.pre, "_app")[c.self_ref] != 0
+
+
+def rel_name_mismatch(c):
+    me = c.self_ref
+    return And(c.a.msg.has("nameplate"), Not(cf(c.pre, "_nameplate_id.isnone")[me]),
+               c.a.msg.val("nameplate").t != cf(c.pre, "_nameplate_id")[me])
+
+
+def rel_nothing(c):
+    me = c.self_ref
+    return And(Not(c.a.msg.has("nameplate")), cf(c.pre, "_nameplate_id.isnone")[me])
+
+
+misuse(c, "second_release", "only one release per connection", lambda c: cf(c.pre, "_did_release")[c.self_ref], REL_H_MOD)
+misuse(c, "other_nameplate", "release and claim must use same nameplate",
+       lambda c: And(Not(cf(c.pre, "_did_release")[c.self_ref]), rel_name_mismatch(c)), REL_H_MOD)
+misuse(c, "nothing_claimed", "release without nameplate must follow claim",
+       lambda c: And(Not(cf(c.pre, "_did_release")[c.self_ref]), rel_nothing(c)), REL_H_MOD)
+
+
+@c.ensures
+def _(c):
+    S0, S1 = c.pre, c.post
+    me = c.self_ref
+    app = cf(S0, "_app")[me]
+    name = If(c.a.msg.has("nameplate"), c.a.msg.val("nameplate").t, cf(S0, "_nameplate_id")[me])
+    sub = sub_ctx(c, app, {"name": VZ(name, "str"), "side": VZ(cf(S0, "_side")[me], "str"), "when": c.a.server_rx})
+    # always answered `released`, after the effect of release_nameplate is committed
+    yield "released", only_me_gets(S0, S1, me, [lambda fr: is_frame(fr, "released", {})]), ["C07", "C14"]
+    for n, t, tags in AN.release_post(sub):
+        yield "effect." + n, t, tags
+    yield "once", cf(S1, "_did_release")[me], ["C17"]
+    yield from event_post(c)
+
+
+# ---------------------------------------------------------------- open
+OPEN_MOD = [MB, MS, "in_tx.ch"] + AN.REGISTRY_COMPS + [
+    "heap." + WS + "_mailbox", "heap." + WS + "_mailbox_id", "heap." + WS + "_mailbox_id.isnone",
+    "heap." + WS + "_listening", "out"]
+c = contract("server_websocket.WebSocketServer.handle_open", cls="WebSocketServer",
+             params={"msg": "msg", "server_rx": "real"}, modifies=OPEN_MOD,
+             tags=["C01", "C02", "C05", "C06", "C09", "C10", "C12", "C14", "C17"])
+c.requires(event_pre)
+
+
+@c.requires
+def _(c):
+    S = c.pre
+    me = c.self_ref
+    yield "is_bound", cf(S, "_app")[me] != 0
+    # F2: mailboxes.id is a global key while the existence test is per app
+    app = cf(S, "_app")[me]
+    yield "id_not_foreign", Implies(And(cf(S, "_mailbox")[me] == 0, c.a.msg.has("mailbox")),
+                                    AN.id_not_foreign(S, hp(S, "AppNamespace._app_id")[app], c.a.msg.val("mailbox").t))
+
+
+misuse(c, "second_open", "only one open per connection", lambda c: cf(c.pre, "_mailbox")[c.self_ref] != 0, OPEN_MOD)
+misuse(c, "no_mailbox", "open requires 'mailbox'",
+       lambda c: And(cf(c.pre, "_mailbox")[c.self_ref] == 0, Not(c.a.msg.has("mailbox"))), OPEN_MOD)
+
+
+def open_args(c, mid):
+    me = c.self_ref
+    return {"mailbox_id": VZ(mid, "str"), "side": VZ(cf(c.pre, "_side")[me], "str"), "when": c.a.server_rx}
+
+
+@c.ensures
+def _(c):
+    S0, S1 = c.pre, c.post
+    me = c.self_ref
+    app = cf(S0, "_app")[me]
+    a = hp(S0, "AppNamespace._app_id")[app]
+    mid = c.a.msg.val("mailbox").t
+    sub = sub_ctx(c, app, open_args(c, mid))
+    M = cf(S1, "_mailbox")[me]
+    for n, t, tags in AN.open_mailbox_post(sub, M):
+        if n in ("one_object_per_id",):
+            continue      # stated below with the listener update
+        yield "effect." + n, t, tags
+    yield "fields", And(M != 0, Not(cf(S1, "_mailbox_id.isnone")[me]), cf(S1, "_mailbox_id")[me] == mid,
+                        cf(S1, "_listening")[me]), ["C17", "C02"]
+    # C02: this connection, and nobody else, joins the one listener set of (app, mailbox)
+    ls1 = LS(S1)
+    yield "Sub_gains_self", And(ls1[M][me], FA([INT, INT], lambda X, h: Implies(
+        And(X != 0, S0.alloc[X], Not(And(X == M, h == me))), ls1[X][h] == LS(S0)[X][h]), pats=lambda X, h: [ls1[X][h]])), ["C02"]
+    # C01: the opener is sent every stored message of exactly (app, mailbox), fields verbatim, oldest first;
+    # nobody else is sent anything
+    T = S0.t(MSG)
+    own = lambda r: And(T.live[r], T.cols["app_id"][r] == a, T.cols["mailbox_id"][r] == mid)
+    n0 = S0.out_len[me]
+    N = S1.out_len[me] - n0
+
+    def fr_of_row(fr, r):
+        return And(fr[S("type")] == FV.fstr(S("message")), fr[S("side")] == FV.fstr(T.cols["side"][r]),
+                   fr[S("phase")] == FV.fstr(T.cols["phase"][r]), fr[S("body")] == FV.fstr(T.cols["body"][r]),
+                   fr[S("server_rx")] == FV.fnum(T.cols["server_rx"][r]), fr[S("id")] == FV.fjson(T.cols["msg_id"][r]),
+                   FV.is_fnum(fr[S("server_tx")]))
+    def replay(rid, idx):
+        return And(
+            N >= 0,
+            FA([INT], lambda j: Implies(And(0 <= j, j < N), And(own(rid[j]), idx[rid[j]] == j,
+                                                                fr_of_row(S1.out_buf[me][n0 + j], rid[j])))),
+            FA([INT], lambda r: Implies(own(r), And(0 <= idx[r], idx[r] < N, rid[idx[r]] == r))),
+            FA([INT], lambda i: Implies(And(0 <= i, i < n0), S1.out_buf[me][i] == S0.out_buf[me][i])))
+    g = c.ghost("Mailbox.add_listener")
+    if g is not None:
+        # proving: the bijection between new frames and stored rows is the enumeration add_listener returned
+        yield "replay_exact", replay(g.origin.rid, g.origin.idx), ["C01", "C06"]
+    else:
+        yield "replay_exact", EX([ArraySort(INT, INT), ArraySort(INT, INT)], replay), ["C01", "C06"]
+    yield "others_silent", others_silent(S0, S1, me), ["C01", "C02", "C05"]
+    yield from event_post(c)
+
+
+@c.raises("Error", "crowded", tags=["C05"], fields={"_explain": "crowded"})
+def _(c):
+    S0, S1 = c.pre, c.post
+    me = c.self_ref
+    app = cf(S0, "_app")[me]
+    mid = c.a.msg.val("mailbox").t
+    sub = sub_ctx(c, app, open_args(c, mid))
+    yield "when", And(cf(S0, "_mailbox")[me] == 0, c.a.msg.has("mailbox"), AN.crowded(S1, mid))
+    # C05: the refused side is not subscribed and is sent nothing
+    yield "crowded_not_subscribed", And(cf(S1, "_mailbox")[me] == 0, Not(cf(S1, "_listening")[me]),
+                                        LS(S1) == LS(S0), unchanged(c, ["out"]))
+    for n, t, tags in AN.open_mailbox_post(sub, None):
+        if n == "one_object_per_id":
+            continue
+        yield "effect." + n, t
+    for it in event_post(c):
+        yield it[0], it[1]
+
+
+@c.loop(0, modifies=["out"], tags=["C01"])
+def _(c, L):
+    """replay loop: the first k stored messages have been sent to this connection, in order"""
+    E, S_ = L.entry, c.post
+    me = c.self_ref
+    n0 = E.out_len[me]
+    lst = L.seq
+    yield "count", S_.out_len == Store(E.out_len, me, n0 + L.k)
+    yield "others", FA([INT], lambda cn: Implies(cn != me, S_.out_buf[cn] == E.out_buf[cn]))
+    yield "prefix", FA([INT], lambda i: Implies(And(0 <= i, i < n0), S_.out_buf[me][i] == E.out_buf[me][i]))
+    yield "sent", FA([INT], lambda j: Implies(And(0 <= j, j < L.k), is_message_frame(S_.out_buf[me][n0 + j], lst.at(j))))
+
+
+# ---------------------------------------------------------------- add
+ADD_MOD = [MSG, MB, "in_tx.ch", "out"]
+c = contract("server_websocket.WebSocketServer.handle_add", cls="WebSocketServer",
+             params={"msg": "msg", "server_rx": "real"}, modifies=ADD_MOD,
+             tags=["C01", "C02", "C09", "C12", "C17", "C06"])
+c.requires(event_pre)
+
+
+@c.requires
+def _(c):
+    yield "is_bound", cf(c.pre, "_app")[c.self_ref] != 0
+
+
+misuse(c, "no_mailbox", "must open mailbox before adding", lambda c: cf(c.pre, "_mailbox")[c.self_ref] == 0, ADD_MOD)
+misuse(c, "no_phase", "missing 'phase'", lambda c: And(cf(c.pre, "_mailbox")[c.self_ref] != 0, Not(c.a.msg.has("phase"))), ADD_MOD)
+misuse(c, "no_body", "missing 'body'", lambda c: And(cf(c.pre, "_mailbox")[c.self_ref] != 0, c.a.msg.has("phase"),
+                                                     Not(c.a.msg.has("body"))), ADD_MOD)
+
+
+@c.ensures
+def _(c):
+    S0, S1 = c.pre, c.post
+    me = c.self_ref
+    msg = c.a.msg
+    M = cf(S0, "_mailbox")[me]
+    app = cf(S0, "_app")[me]
+    a = hp(S0, "AppNamespace._app_id")[app]
+    m = hp(S0, "Mailbox._mailbox_id")[M]
+    side = cf(S0, "_side")[me]
+    mid = If(msg.has("id"), msg.val("id").t, JNULL)
+    sm = VNamed("SidedMessage", {"side": VZ(side, "str"), "phase": msg.val("phase"), "body": msg.val("body"),
+                                 "server_rx": c.a.server_rx, "msg_id": VZ(mid, "json")})
+    # C02/C01: stored with the side this connection is BOUND to, phase/body/id as submitted
+    yield "stores_bound_side_and_fields", is_insert(S0.t(MSG), S1.t(MSG), {
+        "app_id": a, "mailbox_id": m, "side": side, "phase": msg.val("phase").t, "body": msg.val("body").t,
+        "server_rx": c.a.t("server_rx"), "msg_id": mid}), ["C01", "C02", "C06"]
+    yield "touch", is_update(S0.t(MB), S1.t(MB), lambda r: r.id == m, {"updated": c.a.t("server_rx")}), ["C12"]
+    # C02: exactly the connections subscribed to (app, mailbox) get the message, once; nobody else gets anything
+    yield "fanout_is_Sub", fanout(S0, S1, lambda cn: HI.subscribed(S0, cn, M), sm), ["C02", "C06"]
+    yield from event_post(c)
+
+
+# ---------------------------------------------------------------- close
+CLOSE_H_MOD = sorted(set(OPEN_MOD + __import__("contracts.mailbox", fromlist=["CLOSE_MOD"]).CLOSE_MOD
+                         + ["heap." + WS + "_did_close"]))
+c = contract("server_websocket.WebSocketServer.handle_close", cls="WebSocketServer",
+             params={"msg": "msg", "server_rx": "real"}, modifies=CLOSE_H_MOD,
+             tags=["C02", "C05", "C08", "C09", "C10", "C14", "C15", "C16", "C17", "C01", "C07", "C06", "C13"])
+c.requires(event_pre)
+
+
+def close_target(c):
+    me = c.self_ref
+    return If(c.a.msg.has("mailbox"), c.a.msg.val("mailbox").t, cf(c.pre, "_mailbox_id")[me])
+
+
+def close_mismatch(c):
+    me = c.self_ref
+    return And(c.a.msg.has("mailbox"), Not(cf(c.pre, "_mailbox_id.isnone")[me]),
+               c.a.msg.val("mailbox").t != cf(c.pre, "_mailbox_id")[me])
+
+
+def close_nothing(c):
+    me = c.self_ref
+    return And(Not(c.a.msg.has("mailbox")), cf(c.pre, "_mailbox_id.isnone")[me])
+
+
+def close_valid(c):
+    return And(Not(cf(c.pre, "_did_close")[c.self_ref]), Not(close_mismatch(c)), Not(close_nothing(c)))
+
+
+@c.requires
+def _(c):
+    S = c.pre
+    me = c.self_ref
+    yield "is_bound", cf(S, "_app")[me] != 0
+    app = cf(S, "_app")[me]
+    yield "id_not_foreign", Implies(And(close_valid(c), cf(S, "_mailbox")[me] == 0),
+                                    AN.id_not_foreign(S, hp(S, "AppNamespace._app_id")[app], close_target(c)))
+
+
+misuse(c, "second_close", "only one close per connection", lambda c: cf(c.pre, "_did_close")[c.self_ref], CLOSE_H_MOD)
+misuse(c, "other_mailbox", "open and close must use same mailbox",
+       lambda c: And(Not(cf(c.pre, "_did_close")[c.self_ref]), close_mismatch(c)), CLOSE_H_MOD)
+misuse(c, "nothing_opened", "close without mailbox must follow open",
+       lambda c: And(Not(cf(c.pre, "_did_close")[c.self_ref]), close_nothing(c)), CLOSE_H_MOD)
+
+
+@c.ensures
+def _(c):
+    S0, S1 = c.pre, c.post
+    me = c.self_ref
+    # a valid close - first or re-sent, mailbox present or gone - is answered `closed`, once, after the work
+    yield "closed", only_me_gets(S0, S1, me, [lambda fr: is_frame(fr, "closed", {})]), ["C08", "C14"]
+    yield "fields", And(cf(S1, "_did_close")[me], cf(S1, "_mailbox")[me] == 0, Not(cf(S1, "_listening")[me])), ["C17", "C02"]
+    # C08: whatever else happened, this side is no longer an open side of the target mailbox
+    tgt, side = close_target(c), cf(S0, "_side")[me]
+    yield "my_side_closed", S1.t(MS).none(lambda r: And(r.mailbox_id == tgt, r.side == side, r.opened)), ["C08", "C14"]
+    yield from event_post(c)
+
+
+@c.raises("Error", "crowded", tags=["C05"], fields={"_explain": "crowded"})
+def _(c):
+    S0, S1 = c.pre, c.post
+    me = c.self_ref
+    yield "when", And(close_valid(c), cf(S0, "_mailbox")[me] == 0, AN.crowded(S1, close_target(c)))
+    yield "crowded_not_subscribed", And(cf(S1, "_mailbox")[me] == 0, LS(S1) == LS(S0), unchanged(c, ["out"]))
+    for it in event_post(c):
+        yield it[0], it[1]
